@@ -412,7 +412,12 @@ def check_c10(seed, tier):
                         {"op": "del_local"},
                         {"op": "open", "use_cache": True, "create_cache": True, "records_per_chunk": 2},
                         {"op": "cli", "rpc": 3, "image": 0},
-                        {"op": "open", "use_cache": True, "create_cache": True, "records_per_chunk": 2}] if trial == 0 else None
+                        {"op": "open", "use_cache": True, "create_cache": True, "records_per_chunk": 2},
+                        # the very same call again, and once more without writing: an index that was already decoded in this
+                        # process (same content, same chunking) must still give the tree of a fresh open
+                        {"op": "open", "use_cache": True, "create_cache": True, "records_per_chunk": 2},
+                        {"op": "open", "use_cache": True, "create_cache": False, "records_per_chunk": 2},
+                        {"op": "open", "use_cache": False, "create_cache": False, "records_per_chunk": 2}] if trial == 0 else None
             for step_no in range(len(scripted) if scripted else (rng.randint(4, 9) if tier == "quick" else rng.randint(6, 14))):
                 kind = rng.random()
                 if scripted:
